@@ -667,6 +667,11 @@ func (ex *Exec) checkAsserts(fr *Frame, st *State, pc *Term, instr ssa.Instructi
 		}
 		fr.asserted[a] = true
 		t := ex.evalClause(fr, st, pc, a, nil)
+		if a.Assumed {
+			ex.assume(pc, t)
+			ex.V.assumedAt[ex.curContract.Func+": at \""+a.Anchor+"\" assume "+a.Text] = true
+			continue
+		}
 		ex.oblige(fr, "assert", a.Anchor+": "+a.Text, pos, pc, t, a.Props)
 	}
 }
